@@ -81,6 +81,8 @@ func (e *Engine) resultNames(fi *FuncInfo, o Out, sig *types.Signature, base map
 
 func (e *Engine) verifyRel(fi *FuncInfo, label string) (rep *FuncReport) {
 	e.resetFor(fi)
+	e.inRel = true
+	defer func() { e.inRel = false }()
 	c := fi.Contract
 	key := fi.Key + "#rel:" + label
 	var tags []string
@@ -200,8 +202,9 @@ func (e *Engine) verifyRel(fi *FuncInfo, label string) (rep *FuncReport) {
 			st2.assume(term(e.evalSpec(cl.Expr, env)))
 		}
 		outs2 := e.runBody(fi, st2)
+		cr2, ca2 := e.callRes, e.callArgs // the call logs of run 2 (e.callRes is switched to run 1's while clauses are evaluated)
 		for i2, o2 := range outs2 {
-			run2 := &relRun{st: o2.st, names: e.resultNames(fi, o2, sig, base2), callRes: e.callRes, callArgs: e.callArgs}
+			run2 := &relRun{st: o2.st, names: e.resultNames(fi, o2, sig, base2), callRes: cr2, callArgs: ca2}
 			joint := o2.st
 			mk := func(r *relRun) *SpecEnv {
 				env := e.specEnvAt(r.st, fi.Decl.Body.Rbrace)
